@@ -1,5 +1,4 @@
 /-
-<<<<<<< HEAD
   C02 round 4 — "the primary key of the model value" is the key the value HAD WHEN THE UPDATE WAS CALLED, also when the
   update assigns a key column (re-keying a row, changing one part of a composite key).
   Model/UpdateKeys.lean transcribes the order of effects in callbacks/update.go ConvertToAssignments; the order itself is
@@ -110,97 +109,6 @@ theorem C02_rekey_composite_counterexample :
     let m : UpdRec := [("hall", 1), ("no", 5)]
     (updConvertToAssignments true ["hall", "no"] m [("hall", 2)]).conds = [("hall", 1), ("no", 5)] ∧
     (updConvertToAssignments false ["hall", "no"] m [("hall", 2)]).conds = [("hall", 2), ("no", 5)] := by
-=======
-  C09 (round 4) — the primary key inside a SEPARATE updating value is data, never a condition (Model/UpdateKeys.lean).
--/
-import GormModel.Model.UpdateKeys
-import GormModel.Lemmas.StmtReuse
-namespace Gorm
-
-/-- today's ConvertToAssignments adds a WHERE in exactly three places: the Model slice's keys and the Model value's key
-    (both only when the updating value is not the Model itself), and the updating value's key in the ELSE of the
-    three-disjunct test -/
-theorem C09_update_where_sites :
-    Gen.updateWhereSites = [
-      { guards := ["!updatingValue.CanAddr() || stmt.Dest != stmt.Model",
-                   "switch stmt.ReflectValue.Kind() case reflect.Slice, reflect.Array",
-                   "size := stmt.ReflectValue.Len(); size > 0", "!isZero"], source := "reflect", expr := "IN" },
-      { guards := ["!updatingValue.CanAddr() || stmt.Dest != stmt.Model",
-                   "switch stmt.ReflectValue.Kind() case reflect.Struct",
-                   "value, isZero := field.ValueOf(stmt.Context, stmt.ReflectValue); !isZero"], source := "reflect", expr := "Eq" },
-      { guards := ["switch value := updatingValue.Interface().(type) default",
-                   "switch updatingValue.Kind() case reflect.Struct",
-                   "field := updatingSchema.LookUpField(dbName); field != nil",
-                   "else(!field.PrimaryKey || !updatingValue.CanAddr() || stmt.Dest != stmt.Model)",
-                   "value, isZero := field.ValueOf(stmt.Context, updatingValue); !isZero"], source := "updating", expr := "Eq" }] := by
-  decide
-
-/-- the value-key block is the ELSE of `!field.PrimaryKey || !updatingValue.CanAddr() || stmt.Dest != stmt.Model` -/
-theorem C09_update_value_key_guard :
-    Gen.updateValueKeyInElse = true ∧
-    Gen.updateValueKeyGuard = ["!field.PrimaryKey", "!updatingValue.CanAddr()", "stmt.Dest != stmt.Model"] := by
-  decide
-
-theorem C09_update_key_code_today : updateKeyCodeOfFacts = ⟨true, true, true, true⟩ := by decide
-
-/-- with all blocks in place and the value block restricted to `Dest == Model`, the transcription per block IS the
-    statement machine's `writeKeys … .update` -/
-theorem updateKeysOf_today_eq_writeKeys (cfg : StmtCfg) (vk : List Atom) (same : Bool) :
-    updateKeysOf ⟨true, true, true, true⟩ cfg.modelKey vk same = writeKeys cfg .update vk same := by
-  cases same <;> simp [updateKeysOf, writeKeys]
-
-theorem finRejectedUpd_today_eq (ce : Bool) (cfg : StmtCfg) (s : StmtState) (vk : List Atom) (same : Bool) :
-    finRejectedUpd ce ⟨true, true, true, true⟩ cfg s vk same = finRejected ce cfg s .update vk same := by
-  simp only [finRejectedUpd, finRejected, FinKind.isWrite, Bool.true_and, finWhere, updateKeysOf_today_eq_writeKeys]
-
-/-- the decision for an update with a separate value does not depend on that value's key -/
-theorem finRejected_update_separate_value (ce : Bool) (cfg : StmtCfg) (s : StmtState) (vk : List Atom) :
-    finRejected ce cfg s .update vk false = finRejected ce cfg s .update [] false := by
-  simp [finRejected, finWhere, writeKeys]
-
-/-- BLOCKS, value-key dimension: after any sequence of condition-free calls, an update on a key-less Model is rejected
-    WHATEVER primary key the separate updating value carries (`Model(&T{}).Updates(T{ID: 7, …})`, a pointer, a struct of
-    another type): that key is data, not a condition -/
-theorem C09_blocks_update_value_key (cfg : StmtCfg) (hk : cfg.modelKey = []) (hag : cfg.allowGlobal = false)
-    (ops : List StmtOp) (ho : ∀ op ∈ ops, opCondFree op = true) (vk : List Atom) :
-    finRejected true cfg (stmtRun cfg StmtState.fresh ops) .update vk false = true := by
-  rw [finRejected_update_separate_value]
-  exact bareEW_rejected cfg hk hag _ (stmtRun_bareEW cfg hk _ ops (bareEW_fresh cfg) ho) .update rfl false
-
-/-- … stated for the code of the tree under verification (regenerated facts) -/
-theorem C09_blocks_update_value_key_current_tree (cfg : StmtCfg) (hk : cfg.modelKey = []) (hag : cfg.allowGlobal = false)
-    (ops : List StmtOp) (ho : ∀ op ∈ ops, opCondFree op = true) (vk : List Atom) :
-    finRejectedUpd true updateKeyCodeOfFacts cfg (stmtRun cfg StmtState.fresh ops) vk false = true := by
-  rw [C09_update_key_code_today, finRejectedUpd_today_eq]
-  exact C09_blocks_update_value_key cfg hk hag ops ho vk
-
-/-- ADMITS: the value IS the keyed Model (`db.Updates(&T{ID: 7, …})`) — its key is the condition -/
-theorem C09_admits_update_same_value (ce : Bool) (cfg : StmtCfg) (ops : List StmtOp) (a : Atom) (vk : List Atom)
-    (hset : (stmtRun cfg StmtState.fresh ops).keys.contains "SET" = false) :
-    finRejectedUpd ce updateKeyCodeOfFacts cfg (stmtRun cfg StmtState.fresh ops) (a :: vk) true = false := by
-  rw [C09_update_key_code_today, finRejectedUpd_today_eq]
-  exact keyed_admitted ce cfg _ (markerInv_nonempty cfg _ (stmtRun_markerInv cfg _ ops (markerInv_fresh cfg))) .update (a :: vk) true
-    (by simp [writeKeys]) (fun _ => hset)
-
-/-- COUNTEREXAMPLE for the shape `if !field.PrimaryKey { …SET… } else { …WHERE… }` (the value block NOT restricted to
-    `Dest == Model`): a key-less Model, no condition at all, a separate value carrying a key — the write is NOT rejected -/
-theorem C09_value_key_as_condition_counterexample :
-    let cfg : StmtCfg := { soft := none, modelKey := [], allowGlobal := false }
-    let key : Atom := { col := "id", kind := .eq, val := .scalar, id := 1 }
-    finRejectedUpd true ⟨true, true, true, false⟩ cfg StmtState.fresh [key] false = false ∧
-    finRejectedUpd true ⟨true, true, true, true⟩ cfg StmtState.fresh [key] false = true := by
-  decide
-
-/-- the ways past the guard in the handler closures (callbacks/update.go Update, callbacks/delete.go Delete): a pending
-    error, and — Update only — "nothing to SET" (`ConvertToAssignments` returned no assignment; no statement is built).
-    Nothing else returns before checkMissingWhereConditions: no mode flag, no early exit on DryRun -/
-theorem C09_guard_bypass_returns :
-    Gen.guardBypassReturns = [
-      { handler := "Update", guards := ["db.Error != nil"] },
-      { handler := "Update", guards := ["db.Statement.SQL.Len() == 0", "_, ok := db.Statement.Clauses[\"SET\"]; !ok",
-                                        "else(set := ConvertToAssignments(db.Statement); len(set) != 0)"] },
-      { handler := "Delete", guards := ["db.Error != nil"] }] := by
->>>>>>> r4C09
   decide
 
 end Gorm
